@@ -149,6 +149,12 @@ def stmt(self, s: ast.stmt, st: State) -> Optional[State]:
         if opn == "Add" and co is not None and co.kind in ("list", "bytearray"):
             # in-place extend
             items = self.iter_items(rhs, st)
+            if co.kind == "bytearray" and items is not None and not is_const(rhs) and rhs.op in ("bin", "call"):
+                # ba += n.to_bytes(4, "big") [+ ...]: kept as one step of the construction history (the layout domain reads the integer field), not as its single bytes
+                from .exprs import _bytes_of_ints
+
+                if _bytes_of_ints(rhs) is not None:
+                    items = None
             if co.exact and items is not None:
                 co.items.extend(items)
             else:
